@@ -70,6 +70,17 @@ def run(tier):
         else:
             c = [ck, rng.randrange(1, len(pql) + 1)]
         scen.append({"pql": pql, "corrupt": c, "k": 3 + i % 5, "variant": "rand", "seed": rng.randrange(1 << 30)})
+    # a polynomial opened at as many (or more) points as it has coefficients: k = 2 with 4 and 5 points, alone and next to others
+    for npts in (4, 5):
+        for k in (2, 3):
+            one = [[1, p] for p in range(1, npts + 1)]
+            two = one + [[2, p] for p in range(1, npts + 1)] + [[3, 1]]
+            for pql in (one, two):
+                for c in (["none"], ["eval", 1], ["eval", len(pql)], ["proof", "pi"]):
+                    for v in ("rand", "special"):
+                        if c[0] != "none" and v != "rand":
+                            continue
+                        scen.append({"pql": pql, "corrupt": c, "k": k, "variant": v, "seed": rng.randrange(1 << 30)})
     chunks = [scen[i::vlib.NCPU] for i in range(vlib.NCPU)]
     jobs = []
     for i, ch in enumerate(chunks):
